@@ -56,7 +56,7 @@ def gen_values(rng, n, nan_p=0.1, style=None):
     return out
 
 
-def gen_table(rng, max_n=40, nsids=None, axes_p=(0.65, 0.5), index_kinds=None, n=None, no_time_p=0.0, unsorted_p=0.0):
+def gen_table(rng, max_n=40, nsids=None, axes_p=(0.65, 0.5), index_kinds=None, n=None, no_time_p=0.0, unsorted_p=0.0, frac_p=0.0, nat_p=0.0):
     n = gen_n(rng, max_n) if n is None else n
     k = nsids or rng.weighted([(1, 4), (2, 4), (3, 2)])
     tbl = {
@@ -101,11 +101,25 @@ def gen_table(rng, max_n=40, nsids=None, axes_p=(0.65, 0.5), index_kinds=None, n
         tbl["unsorted"] = t != sorted(t)
         if tbl["index"]["kind"] == "datetime":
             tbl["index"] = {"kind": "range"}
+    if n >= 2 and frac_p and rng.chance(frac_p):
+        tbl["frac_ms"] = [rng.pick((0, 0, 250, 500, 750)) for _ in range(n)]  # sub-second sampling (exact in float64)
+    if n >= 2 and nat_p and rng.chance(nat_p):
+        tbl["nat"] = sorted(rng.sample(range(n), rng.randint(1, min(2, n - 1))))  # a record without a clock value
+        if tbl["index"]["kind"] == "datetime":
+            tbl["index"] = {"kind": "range"}
     if rng.chance(0.2):
         # other column dtypes (integers cannot hold NaN: only columns without missing values)
         dt = {}
         for sid, vals in tbl["cols"].items():
-            choice = rng.pick(("float32", "int32", "float64"))
+            choice = rng.pick(("float32", "int32", "float64", "int64"))
+            if choice == "int64":
+                # a counter / epoch-nanosecond style column: integers far beyond what float64 holds exactly
+                if any(v is None for v in vals):
+                    continue
+                tbl["cols"][sid] = [1583020800000000001 + 1000003 * i * (3 if i % 2 else 1) for i in range(len(vals))]
+                tbl["no_files"] = True  # NetCDF3 has no 64-bit integers
+                dt[sid] = "int64"
+                continue
             if choice == "int32":
                 if any(v is None for v in vals):
                     continue
